@@ -27,7 +27,7 @@ type mineScenario struct {
 	// target: v1 float score, v2 integer score
 	TargetV1 float64 `json:"target_v1,omitempty"`
 	TargetV2 uint64  `json:"target_v2,omitempty"`
-	Cancel   string  `json:"cancel"`  // never | before | concurrent
+	Cancel   string  `json:"cancel"`  // never | before | concurrent | reuse (two calls on one Worker, first context cancelled in between)
 	Pattern  []int   `json:"pattern"` // per worker: first batch (0,1,2) holding a qualifying nonce, -1 = none in batches 0..2
 }
 
@@ -91,7 +91,35 @@ func runMine(s *mineScenario, prefix []int, maxPoll int) *mineRun {
 	caller := func() {
 		var nonce uint64
 		var err error
-		if s.Version == 1 {
+		if s.Cancel == "reuse" {
+			// two calls on ONE Worker: the first with its own context, which the caller cancels as soon as the call has
+			// returned (its watcher may not have run yet); the second with a context that is never cancelled
+			ctx1, cancel1 := context.WithCancel(context.Background())
+			defer cancel1()
+			ready1 := false
+			vchan.RegisterForeign(ctx1.Done(), &ready1)
+			if s.Version == 1 {
+				w := pow.New(s.Workers)
+				_, _ = w.Mine(ctx1, s.Data, s.TargetV1)
+				if vsched.Killed() {
+					return
+				}
+				vsched.Point(&vsched.Op{Kind: "cancel", Obj: "ctx1", Write: true})
+				ready1 = true
+				cancel1()
+				nonce, err = w.Mine(ctx, s.Data, s.TargetV1)
+			} else {
+				w := powv2.New(s.Workers)
+				_, _ = w.Mine(ctx1, s.Data, s.TargetV2)
+				if vsched.Killed() {
+					return
+				}
+				vsched.Point(&vsched.Op{Kind: "cancel", Obj: "ctx1", Write: true})
+				ready1 = true
+				cancel1()
+				nonce, err = w.Mine(ctx, s.Data, s.TargetV2)
+			}
+		} else if s.Version == 1 {
 			nonce, err = pow.New(s.Workers).Mine(ctx, s.Data, s.TargetV1)
 		} else {
 			nonce, err = powv2.New(s.Workers).Mine(ctx, s.Data, s.TargetV2)
